@@ -751,6 +751,17 @@ def gen_c19(rng, tier):
     scale = 1 if tier == 'quick' else 8
     # the minimal run first (the former failing input of the repaired sentPendingAck defect)
     cases.append(dict(id='corpus-one-batch', exporters=1, compression='', factory=False, workers=1, batches=1, points=[1], sleep_us=[0], seed=1, family='corpus'))
+    # a long export call followed by silence: the flusher ticks while the call converts / waits for
+    # the writer mutex, nothing is exported afterwards (everything must still be flushed and acknowledged)
+    for i in range(1 if tier == 'quick' else 4):
+        cases.append(dict(id=f'large-last-{i}', exporters=1, compression=rng.choice(['', 'zstd']), factory=False, workers=1 + (i % 2), batches=2,
+                          points=[3 + rng.below(5), 70000 + rng.below(30000)], sleep_us=[0], seed=rng.below(1000), family='large-last'))
+    # a consumer that blocks in one call: frames pile up at the receiver and are then consumed in a
+    # burst (acknowledgements scheduled a few microseconds apart), then silence
+    for i in range(3 if tier == 'quick' else 12):
+        cases.append(dict(id=f'backlog-{i}', exporters=1 + (i % 2), compression=rng.choice(['', 'zstd']), factory=False, workers=1, batches=3 + rng.below(3),
+                          points=[20 + rng.below(100)], sleep_us=[120000], seed=rng.below(1000), family='backlog',
+                          consumer_delay_us=[350000 + rng.below(100000)] + [0] * 20))
     for i in range((40 if tier == 'quick' else 240)):
         fam = ['single', 'concurrent', 'multi', 'spread', 'factory'][i % 5]
         c = dict(id=f'{fam}-{i}', exporters=1, compression=rng.choice(['', 'zstd']), factory=False, workers=1, batches=1 + rng.below(5),
